@@ -312,7 +312,11 @@ func runC07(c *config) {
 		var idxs []verifhook.GepIndex
 		var enc []string
 		cur := et
-		for k := 0; k <= r.intn(5); k++ {
+		nidx := 1 + r.intn(5)
+		if r.chance(8) {
+			nidx = 0 // a getelementptr without indices: the base pointer (or vector of pointers) itself
+		}
+		for k := 0; k < nidx; k++ {
 			ix := verifhook.GepIndex{HasVal: r.chance(70), Val: int64(r.intn(4))}
 			if r.chance(5) {
 				ix.Val = -1
@@ -356,6 +360,9 @@ func runC07(c *config) {
 		var forms []idxForm
 		cur := et
 		n := 1 + r.intn(4)
+		if r.chance(8) {
+			n = 0 // no indices at all
+		}
 		for k := 0; k < n; k++ {
 			if k == 0 {
 				forms = append(forms, c07GenForm(r, false, 0))
